@@ -135,9 +135,12 @@ def install():
                         _count("C19|equal pairs|" + f.__name__)
                         try:
                             h1, h2 = hash(self), hash(other)
-                        except TypeError:
+                        except Exception as exc:
                             h1 = h2 = None
-                            _count("C19|unhashable")
+                            _viol("C19", "hash-raises|" + f.__name__,
+                                  "%s == %s but hash() raises %s: %s" %
+                                  (_rep(self), _rep(other),
+                                   type(exc).__name__, exc))
                         if h1 != h2:
                             mech = "eq-hash|" + f.__name__
                             if f is Quantity and \
